@@ -27,7 +27,9 @@ class SHACLRuleCondition(object):
         return self.cond_shape.focus_nodes(data_graph)
 
     def validate_condition(self, executor, data_graph, focus_node):
-        return self.cond_shape.validate(executor, data_graph, focus=focus_node)
+        # A rule's condition is plain SHACL conformance: the severity waivers (allow_infos/allow_warnings)
+        # of the run relax the verdict of top-level shapes only, so the condition shape is not evaluated as one.
+        return self.cond_shape.validate(executor, data_graph, focus=focus_node, _evaluation_path=[])
 
 
 class SHACLRule(object):
